@@ -27,7 +27,7 @@ func (t *Tree) computeEdgeHashesRightRecur(cur, prev *Node, e *Edge) {
 		e.ntaxright = 0
 		e.hashcoderight = 0
 	}
-	if cur.Tip() {
+	if cur.Tip() && e != nil {
 		//tipIndex, _ := t.TipIndex(cur.Name())
 		e.hashcoderight = tax_hash(cur.Name())
 		e.ntaxright++
@@ -67,6 +67,11 @@ func (t *Tree) computeEdgeHashesLeftRecur(cur, prev *Node, e *Edge) {
 					}
 				}
 			}
+		}
+		// A root having a single neighbor is a tip: it is a taxon on the left side
+		if prev.Tip() {
+			e.hashcodeleft += tax_hash(prev.Name())
+			e.ntaxleft++
 		}
 	}
 	for i, n := range cur.Neigh() {
